@@ -41,7 +41,7 @@ KF_NULLP = 'C12-setptr-null'
 KF_RMKEY = 'C12-remove-string-key'
 KF_APMOVE = 'C12-append-moved-member'
 MAN = os.environ.get('VF_KF_MANUAL') == '1'
-KIND = {'U': 0, 'S': 4, 'UI': 5, 'I': 6, 'D': 7, 'T': 8, 'F': 9, 'NUL': 10, 'X': 20, 'N': 30}   # N: nested array [Undefined, unsigned]
+KIND = {'U': 0, 'S': 4, 'UI': 5, 'I': 6, 'D': 7, 'T': 8, 'F': 9, 'NUL': 10, 'X': 20, 'N': 30, 'NO': 31}   # N: nested array [Undefined, unsigned]
 KEYID = {'e': 0, 'a': 1, 'b': 2, 'ab': 3}
 OP = {'NONE': 0, 'AS_SCALAR': 1, 'AS_TYPE': 2, 'AS_STR': 3, 'AS_ARR': 4, 'AS_COPY': 5, 'AS_MOVE': 6, 'AS_SELF': 7, 'CTOR_COPY': 8, 'CTOR_MOVE': 9,
       'AP_SCALAR': 10, 'AP_STR': 11, 'AP_ARR': 12, 'AP_COPY': 13, 'AP_MOVE': 14, 'AP_PTR': 15, 'INDEX': 16, 'MERGE_COPY': 17, 'MERGE_MOVE': 18,
@@ -156,6 +156,8 @@ def queries(tier):
             if not q: qs.append(Q(p, 'CTOR_COPY', BV=bv))
     # Compress reaches nested containers whether or not the outer container is rebuilt (A_UI_N: size == capacity, nothing to rebuild)
     for p in ('A_UI_N', 'A_N', 'A_U_N', 'O_a.N', 'O_a.X_b.N'):
+        qs.append(Q(p, 'COMPRESS')); qs.append(Q(p, 'NONE'))
+    for p in ('O_a.NO', 'A_NO'):      # NO: a nested OBJECT with a removed member (object inside object / inside array)
         qs.append(Q(p, 'COMPRESS')); qs.append(Q(p, 'NONE'))
         if not q: qs.append(Q(p, 'CTOR_COPY')); qs.append(Q(p, 'AS_MOVE', src='UI'))
     # numeric / boolean coercion of strings (real Digit::stringToNumber and power kernels, no stub): concrete texts with their expected reading
